@@ -929,6 +929,10 @@ func callbackKey(fn *ssa.Function, v ssa.Value) string {
 				return types.TypeString(T, nil) + "." + st.Field(fa.Field).Name()
 			}
 		}
+		// a captured function variable (`*f` where f is a free variable of the closure)
+		if fv, ok := x.X.(*ssa.FreeVar); ok {
+			return fn.String() + "." + fv.Name()
+		}
 		// a package-level function variable (`var clock = func() ...`): "<pkgpath>.<name>"
 		if g, ok := x.X.(*ssa.Global); ok && g.Pkg != nil {
 			return g.Pkg.Pkg.Path() + "." + g.Name()
